@@ -33,7 +33,7 @@ def py_resolve(table, site_ns, spelling):
 # ----------------------------------------------------------------------------- generator
 class Gen:
     def __init__(self, rng, max_decls=8, max_depth=3, p_comment=0.3, targets=None, allow_functions=True,
-                 shadowing=0.5, multi_file=0.3, p_deprecated=0.15):
+                 shadowing=0.5, multi_file=0.3, p_deprecated=0.15, default_deriving=()):
         self.r = rng
         self.max_decls = max_decls
         self.max_depth = max_depth
@@ -43,6 +43,7 @@ class Gen:
         self.allow_functions = allow_functions
         self.shadowing = shadowing
         self.multi_file = multi_file
+        self.default_deriving = list(default_deriving)
 
     # -- skeleton: namespaces + declaration stubs
     def skeleton(self):
@@ -205,7 +206,7 @@ class Gen:
         elif k == 'record':
             deriving = r.choice([None, None, [], ['eq'], ['ord'], ['eq', 'ord'], ['ord', 'eq'], ['eq', 'eq']])
             allowed = {'primitive', 'record', 'enum', 'flags', 'function'}
-            if not (deriving and 'ord' in deriving):
+            if not ((deriving and 'ord' in deriving) or 'ord' in self.default_deriving):
                 allowed |= {'collection'}
             names = r.sample(MEMBER_POOL, r.randint(0, 5))
             stub['fields'] = [{'name': n, 'comment': self.comment(),
@@ -314,6 +315,7 @@ class Layout:
         self.mode = mode
         self.out = []
         self.need_nl = False
+        self.nl = 0          # newlines emitted so far
 
     def ws(self, required):
         if self.mode == 'canon' or self.r is None:
@@ -328,13 +330,16 @@ class Layout:
         if self.need_nl:
             self.out.append('\n' + ('' if self.mode == 'canon' or self.r is None else self.r.choice(['', ' ', '\t', '\n'])))
             self.need_nl = False
+            self.nl += self.out[-1].count('\n')
         elif prev:
             required = prev[-1] in WORDY and t[0] in WORDY
             # '-' followed by '>' would lex as ARROW; '+x'/'-x' followed by letters extends the TARGET token
             if prev[-1] == '-' and t[0] == '>':
                 required = True
             self.out.append(self.ws(required))
+            self.nl += self.out[-1].count('\n')
         self.out.append(t)
+        return self.nl + 1   # line of this token
 
     def comment(self, lines):
         if not lines:
@@ -410,7 +415,7 @@ def p_item(L, d):
             p_item(L, it)
         L.tok('}'); L.newline_hint()
         return
-    L.tok(d['name']); L.tok('=')
+    d['_line'] = L.tok(d['name']); L.tok('=')
     if k == 'enum':
         L.tok('enum'); L.tok('{')
         for it in d['items']:
